@@ -27,12 +27,12 @@ from decimal import Decimal
 from fractions import Fraction
 
 PROPERTY = "C19"
-LEAN_MODULES = ["Proofs.C19", "Proofs.C19.Failure"]
+LEAN_MODULES = ["Proofs.C19", "Proofs.C19.Failure", "Proofs.C19.Process"]
 DRIVERS = ["driver_metrics"]
-RULE = ("1-4 scripted strategies out of 29 behaviours — trading: idle, add liquidity once/twice, add then remove, buy, sell, rebalance, add on a second "
-        "Uniswap market, failing operation, Aave supply, Aave supply+borrow, option buy / buy+sell / two buys of the same instrument in the same hourly "
+RULE = ("1-5 scripted strategies out of 31 behaviours — trading: idle, add liquidity once/twice, add then remove, buy, sell, rebalance, add on a second "
+        "Uniswap market, failing operation, Aave supply, Aave supply+borrow, Aave borrow-to-the-limit then a price drop in its own price table (liquidated), option buy / buy+sell / two buys of the same instrument in the same hourly "
         "bar (sizes: exactly the best level, more than it, small), Squeeth long / short vault, GLP buy / buy+sell; acting on what they see: add an "
-        "indicator column and trade on it, act on such a column if present, watcher (notes prices, status rows, best ask and trades by them); writing "
+        "indicator column and trade on it, act on such a column if present, watcher (notes prices, status rows, best ask and trades by them), process-state reader (results of divisions / roots / quantize / overflow / division by zero under the context it finds, everything a snapshot lists, and trades 1/3); writing "
         "into what they were handed: overwrite frame values in place, multiply a column of self.prices and set a cell by position, overwrite cells of "
         "every market's frame by position (and replace an order-book cell), decrement order-book levels nested in cells of self.data in place, write "
         "through snapshot.market_status / market.market_status (rows and nested lists), change the balances of their own account; ending their own "
@@ -48,8 +48,14 @@ TRUSTED = [
     "copy.deepcopy, DataFrame.copy(deep=False) under pandas copy-on-write (pandas >= 3, the installed version) and DataFrame.map give independent "
     "objects of the respective layer is assumed — the harness checks after every run that the manager's own frames (with the lists nested in their "
     "cells), its price frame and its configured markets are untouched",
-    "module-level / class-level state (of demeter: logging, decimal context, caches; of the strategy classes themselves) is outside the model and "
-    "outside the generated behaviours: a strategy that keeps state in its class or module is not covered",
+    "process-wide state is the layer G of the model (GStrat, managerRunG) and the hypothesis GIntact of C19_manager_isolated: of it the harness "
+    "measures, before and after every backtest, in the caller's process and in every pool worker, the decimal context (precision, rounding, traps, "
+    "Emin/Emax, capitals, clamp) and the class-level attributes of Snapshot (identity, keys, content hash) — a change is a violation by itself, and "
+    "the proc_reader behaviour turns it into a changed result; other module-level state (logging configuration, caches of third-party modules, the "
+    "strategy classes' own class attributes) is not enumerated: a strategy that keeps state in its class or module, or changes the decimal "
+    "context itself, falls outside GIntact and is not generated",
+    "the assignment of tasks to pool workers is observed (pid of every backtest, execution order per process) and handed to the model; that a "
+    "worker executes its tasks in submission order is checked per case (otherwise the assumed assignment is used and the case is counted)",
 ]
 ASSUMPTIONS = ["pandas copy-on-write isolates every in-place write into DataFrame.copy(deep=False) — measured on the installed pandas on every run (13 ways of "
                "writing: iloc/loc/at/iat, column arithmetic, slices, masks, update, fillna(inplace), raw buffer writes), not read off its version; if a "
@@ -67,10 +73,10 @@ except Exception:  # noqa: BLE001
 MARKET_SETS = [["uni_a"], ["uni_a", "uni_b"], ["uni_a", "aave"], ["deribit"], ["uni_a", "deribit"], ["uni_sq", "squeeth"], ["gmx"]]
 CALL, PUT = "ETH-22SEP23-1650-C", "ETH-22SEP23-1600-P"
 T0 = "2023-08-15 00:00:00"
-GENERIC = ["idle", "watcher", "mut_prices", "mut_data", "mut_nested", "mut_status", "mut_assets", "trig_init", "trig_ctor", "mut_market", "raiser"]
+GENERIC = ["idle", "watcher", "mut_prices", "mut_data", "mut_nested", "mut_status", "mut_assets", "trig_init", "trig_ctor", "mut_market", "raiser", "proc_reader"]
 UNI = ["add1", "add2", "addremove", "buy", "sell", "rebalance", "failing", "indicator", "follower", "vandal", "bad_price"]
 OPT = ["opt_buy", "opt_round", "opt_twice"]
-BEHAVIOURS = GENERIC + UNI + ["add_b", "aave_s", "aave_sb"] + OPT + ["sq_buy", "sq_short", "glp_buy", "glp_round"]
+BEHAVIOURS = GENERIC + UNI + ["add_b", "aave_s", "aave_sb", "aave_liq"] + OPT + ["sq_buy", "sq_short", "glp_buy", "glp_round"]
 
 
 def measure_cow():
@@ -123,7 +129,7 @@ def applicable(markets):
     if "uni_b" in markets:
         out += ["add_b"]
     if "aave" in markets:
-        out += ["aave_s", "aave_sb"]
+        out += ["aave_s", "aave_sb", "aave_liq"]
     if "deribit" in markets:
         out += OPT + OPT
     if "squeeth" in markets:
@@ -292,7 +298,61 @@ def dump_state(strategy):
     out["actions"] = [[type(a).__name__, str(getattr(a, "market", "")), str(getattr(a, "timestamp", ""))] for a in strategy.actions]
     out["notes"] = list(strategy.notes)
     out["found"] = strategy.found
+    out["pid"] = os.getpid()        # which process ran this backtest (not compared: the observed assignment of tasks to workers)
     return out
+
+
+def status_hash(ms):
+    """content of a MarketDict of status rows / frames: keys in order, default key, every value cell by cell"""
+    h = hashlib.sha1()
+    h.update(repr([getattr(k, "name", str(k)) for k in ms.data.keys()]).encode())
+    h.update(repr(getattr(ms.get_default_key(), "name", None)).encode())
+    for v in ms.data.values():
+        h.update((frame_hash(v) if hasattr(v, "columns") else frame_hash(v.to_frame()) if hasattr(v, "to_frame") else repr(v)).encode())
+    return h.hexdigest()
+
+
+def proc_state(with_id=True):
+    """the process-wide state a backtest can read and leave behind (`G` of Demeter.Manager.GStrat): the decimal context of the thread
+    every backtest of this process runs on (precision, rounding, traps, exponent range, capitals, clamp) and the class-level
+    attributes of `Snapshot` that hold objects (a class-level `market_status` dict is shared by every Snapshot of the process):
+    identity, keys and content hash"""
+    import decimal
+    c = decimal.getcontext()
+    out = {"dctx": [c.prec, c.rounding, sorted(t.__name__ for t, on in c.traps.items() if on), c.Emin, c.Emax, c.capitals, c.clamp]}
+    try:
+        from demeter.broker._typing import Snapshot
+        shared = []
+        for k, v in sorted(vars(Snapshot).items()):
+            if k.startswith("__") or callable(v) or isinstance(v, (property, staticmethod, classmethod)):
+                continue
+            keys = sorted(getattr(x, "name", str(x)) for x in v.data.keys()) if hasattr(v, "data") and isinstance(v.data, dict) else None
+            shared.append([k] + ([id(v)] if with_id else []) + [keys, status_hash(v) if keys is not None else repr(v)[:200]])
+        out["snapshot_class"] = shared
+    except Exception as e:  # noqa: BLE001
+        out["snapshot_class"] = "unreadable: " + type(e).__name__
+    return out
+
+
+def install_proc_log(out_dir):
+    """no hook in /repo: the module-level `_start` of demeter.core.backtest (looked up by name on every call, in the caller's process and —
+    inherited by fork — in every pool worker) is wrapped here; every backtest appends {sid, pid, process state before / after, failed}
+    to a file of its own process, so the file order is the execution order inside that process"""
+    import demeter.core.backtest as bt
+    inner = bt._start
+
+    def logged(config, data, strategy, bk_config):
+        rec = {"sid": getattr(strategy, "sid", None), "pid": os.getpid(), "before": proc_state()}
+        try:
+            return inner(config, data, strategy, bk_config)
+        except BaseException as e:
+            rec["failed"] = type(e).__name__
+            raise
+        finally:
+            rec["after"] = proc_state()
+            with open(os.path.join(out_dir, f"_proc_{os.getpid()}.jsonl"), "a") as f:
+                f.write(json.dumps(rec) + "\n")
+    bt._start = logged
 
 
 def nested_columns(df):
@@ -355,9 +415,10 @@ def probe_found(strategy):
     f["prices"] += len([c for c in p.columns if c not in pp.columns and c != "USD"])
     f["cells"] = str(f["cells"])
     # process-wide and per-object state a backtest starts with: the Decimal context, and triggers already installed that are not this strategy's
-    import decimal
-    c = decimal.getcontext()
-    f["dctx"] = [c.prec, c.rounding, sorted(t.__name__ for t, on in c.traps.items() if on)]
+    # (the whole context — exponent range, capitals, clamp too — and whatever the Snapshot class itself holds: `proc_state`)
+    ps = proc_state(with_id=False)
+    f["dctx"] = ps["dctx"]
+    f["snapshot_class"] = ps["snapshot_class"]
     # every pandas object a market carries besides its data frame (Aave's risk-parameter table, …): part of the market object a backtest is handed
     f["mattrs"] = [[mi.name, k, frame_hash(v if hasattr(v, "columns") else v.to_frame())] for mi, m in strategy.broker.markets.items() for k, v in sorted(market_frames(m))]
     own = getattr(strategy, "_own_triggers", [])
@@ -536,6 +597,29 @@ def make_strategy_class():
                     self.assets[t].balance += Decimal(7)
                     self.broker.add_to_balance(t, Decimal(3))
                 self._try("pay", pay)
+            elif b == "proc_reader" and r in (1, 3):
+                # a strategy whose numbers depend on the process-wide decimal context it happens to run under (precision, rounding mode, traps,
+                # exponent range) and that looks at everything a snapshot lists: whatever an earlier backtest of this process left there shows up
+                def ctx_numbers():
+                    third = Decimal(1) / Decimal(3)
+                    out = [str(third), str((Decimal(2) / Decimal(3)).sqrt()), str(Decimal("2.5").quantize(Decimal(1))), str(Decimal("-0.125").quantize(Decimal("0.01"))),
+                           str(+Decimal("1.23456789012345678901234567890123456789012345"))]
+                    for what, f in (("div0", lambda: Decimal(1) / Decimal(0)), ("huge", lambda: Decimal(10) ** 999999 * Decimal(100)),
+                                    ("tiny", lambda: Decimal("1e-999999") / Decimal(10 ** 40)), ("nan", lambda: Decimal("NaN") < Decimal(1))):
+                        try:
+                            out.append(what + "=" + str(f()))
+                        except Exception as e:  # noqa: BLE001
+                            out.append(what + "!" + type(e).__name__)
+                    return out
+                self._try("ctx", ctx_numbers)
+                self.notes.append("snapshot-lists:" + ",".join(sorted(k.name for k in snapshot.market_status.data.keys())) + ":default:" +
+                                  str(getattr(snapshot.market_status.get_default_key(), "name", None)))
+                if self._has("uni_a"):
+                    self._try("buy-third", lambda: self._m("uni_a").buy(Decimal(1) / Decimal(3)))
+                elif self._has("gmx"):
+                    self._try("glp-third", lambda: self._m("gmx").buy_glp(self.tokens["usdc"], Decimal(100) / Decimal(3)))
+                elif self._has("squeeth"):
+                    self._try("sq-third", lambda: self._m("squeeth").buy_squeeth(eth_amount=Decimal(1) / Decimal(3)))
             elif b == "watcher" and r in ((min(3, len(self.prices) - 1),) if o2 < 60 else (3, 60)):
                 # records what it sees and trades by it: anything written by somebody else into prices / data / status shows up here
                 self.notes.append("price:" + ",".join(str(x) for x in snapshot.prices.values))
@@ -578,6 +662,21 @@ def make_strategy_class():
                     self._try("supply", lambda: self._m("aave").supply(self.tokens["weth"], Decimal("3"), True))
                 elif r == 2:
                     self._try("borrow", lambda: self._m("aave").borrow(self.tokens["usdc"], Decimal("800")))
+            elif b == "aave_liq":
+                # borrows close to its limit and then marks its collateral down in the price table of ITS OWN backtest (self.prices is the
+                # Actuator's private frame): from the next bar on the health factor is below 1 and the market liquidates the position
+                if r == 1:
+                    self._try("supply", lambda: self._m("aave").supply(self.tokens["weth"], Decimal("3"), True))
+                elif r == 2:
+                    self._try("borrow", lambda: self._m("aave").borrow(self.tokens["usdc"], Decimal("3500")))
+                elif r == 3:
+                    def crash():
+                        c, later = self.tokens["weth"].name, self.prices.index[4:]
+                        self.prices.loc[later, c] = [v * Decimal("0.55") for v in self.prices.loc[later, c]]
+                    self._try("crash", crash)
+                elif r == 6:
+                    m = self._m("aave")
+                    self.notes.append("after:" + json.dumps(canon({"supplies": m.supplies, "borrows": m.borrows}))[:400])
             # options: everybody trades the same instrument in the same hourly bar
             elif b in OPT and r == o1:
                 self._try("opt-buy", lambda: [[str(o.price), str(o.amount)] for o in self._m("deribit").buy(CALL, Decimal(self.arg))[0]])
@@ -695,6 +794,8 @@ def worker(spec_path):
     from demeter import BacktestManager, BacktestConfig, Actuator
     Scripted = make_strategy_class()
     Scripted.__qualname__ = "Scripted"
+    proc0 = proc_state()            # the process state right after `import demeter`: what a backtest alone in a fresh process starts from
+    install_proc_log(spec["out"])
     config, data, tokens, pdf = build_world(spec)
     set_pristine(data, pdf)
     frames = data.data
@@ -728,7 +829,8 @@ def worker(spec_path):
     attached = [m.market_info.name for m in config.markets if m.broker is not None]
     with open(os.path.join(spec["out"], "_manager.json"), "w") as f:
         json.dump({"data_intact": before == after, "changed": sorted(k for k in before if before[k] != after[k]),
-                   "config_positions_after": leftover, "config_attached": attached, "raised": raised}, f)
+                   "config_positions_after": leftover, "config_attached": attached, "raised": raised,
+                   "pid": os.getpid(), "proc0": proc0, "proc_after": proc_state()}, f)
     if spec.get("direct"):
         for s in spec["strategies"]:
             config, data, tokens, pdf = build_world(spec)
@@ -778,6 +880,72 @@ def edge_worker(spec_path):
         json.dump({"outcome": outcome, "cpu": multiprocessing.cpu_count(), "threads": threads, "n": n}, f)
 
 
+def own_frame_worker(out_path):
+    """which classes of objects stored inside cells does `_own_frame` duplicate?  One object column per class; a write into the cell
+    of the frame handed out must not reach the shared frame.  `managerCellsCopied` / `Mode.cellsCopied` cover list, dict and set cells
+    (and every other cell of a column that holds at least one of those); the other classes are recorded, not judged."""
+    import logging
+    logging.disable(logging.CRITICAL)
+    sys.path.insert(0, os.environ.get("DEMETER_REPO", "/repo"))
+    import collections
+    import numpy as np
+    import pandas as pd
+    import demeter.core.backtest as bt
+
+    class Box:
+        def __init__(self):
+            self.v = [1.0]
+    idx = pd.date_range(T0, periods=3, freq="min")
+    makers = {
+        "list": (lambda: [[0.5, 1.0]], lambda c: c[0].__setitem__(1, 9.0), lambda c: c[0][1]),
+        "dict": (lambda: {"a": [1.0]}, lambda c: c["a"].__setitem__(0, 9.0), lambda c: c["a"][0]),
+        "set": (lambda: {1}, lambda c: c.add(9), lambda c: sorted(c)),
+        "list+object in one column": None,
+        "tuple of lists": (lambda: ([0.5, 1.0],), lambda c: c[0].__setitem__(1, 9.0), lambda c: c[0][1]),
+        "numpy array": (lambda: np.array([1.0, 2.0]), lambda c: c.__setitem__(0, 9.0), lambda c: float(c[0])),
+        "deque": (lambda: collections.deque([1.0]), lambda c: c.append(9.0), lambda c: list(c)),
+        "user object": (lambda: Box(), lambda c: c.v.__setitem__(0, 9.0), lambda c: c.v[0]),
+    }
+    out = {}
+    for name, mk in makers.items():
+        try:
+            if mk is None:
+                cells = [[[0.5, 1.0]], Box(), Box()]
+                write, read = (lambda c: c.v.__setitem__(0, 9.0)), (lambda c: c.v[0])
+                k = 1
+            else:
+                cells, write, read, k = [mk[0]() for _ in idx], mk[1], mk[2], 0
+            shared = pd.DataFrame({"x": [1.0, 2.0, 3.0], "cell": pd.Series(cells, index=idx, dtype=object)}, index=idx)
+            before = repr(read(shared["cell"].iloc[k]))
+            own = bt._own_frame(shared)
+            write(own["cell"].iloc[k])
+            out[name] = repr(read(shared["cell"].iloc[k])) == before
+        except Exception as e:  # noqa: BLE001
+            out[name] = "error: " + type(e).__name__
+    json.dump(out, open(out_path, "w"))
+
+
+OWN_FRAME_COVERED = ("list", "dict", "set", "list+object in one column")
+
+
+def own_frame_probe(ctx):
+    """the class of cell objects `cellsCopied = true` speaks about, measured on `_own_frame` itself"""
+    with tempfile.TemporaryDirectory(prefix="c19o_", dir=work_dir()) as d:
+        op = os.path.join(d, "_own.json")
+        subprocess.run([sys.executable, os.path.abspath(__file__), "--ownframe", op], stdout=subprocess.PIPE, stderr=subprocess.PIPE, timeout=300)
+        res = json.load(open(op)) if os.path.exists(op) else None
+    if res is None:
+        ctx.note("own_frame_probe", "no result")
+        return
+    ctx.note("own_frame_cell_classes_isolated", res)
+    for k, v in res.items():
+        ctx.case(f"own-frame:{k}:{'isolated' if v is True else 'shared' if v is False else v}")
+        if k in OWN_FRAME_COVERED and v is not True:
+            ctx.violate(f"manager._own_frame:cell-not-copied:{k}", f"_own_frame hands out a frame whose '{k}' cells are the shared frame's own objects ({v}): a write "
+                        "into such a cell by one backtest is seen by every later backtest of the process", {"own_frame_probe": k})
+    ctx.note("own_frame_not_covered", sorted(k for k, v in res.items() if k not in OWN_FRAME_COVERED and v is not True))
+
+
 EDGE = ["no-config", "no-data", "no-strategies", "too-many-threads", "zero-threads", "second-pooled-run"]
 
 
@@ -817,6 +985,15 @@ def run_manager(spec, timeout=600):
                     res[sid] = None
         mp = os.path.join(d, "_manager.json")
         mgr = json.load(open(mp)) if os.path.exists(mp) else None
+        if mgr is not None:
+            # one log per process that executed backtests, lines in execution order: {pid: [{sid, before, after, failed?}, …]}
+            mgr["proc_log"] = {}
+            for fn in sorted(os.listdir(d)):
+                if fn.startswith("_proc_") and fn.endswith(".jsonl"):
+                    try:
+                        mgr["proc_log"][fn[6:-6]] = [json.loads(line) for line in open(os.path.join(d, fn)) if line.strip()]
+                    except ValueError:
+                        mgr["proc_log"][fn[6:-6]] = None
         return res, mgr, p.returncode, p.stderr.decode(errors="replace")[-1500:]
 
 
@@ -858,8 +1035,8 @@ def solo_key(case, behaviour, arg):
 
 def run_solo(case, behaviour, arg):
     """the reference: the strategy alone, (a) through a manager with one strategy, (b) by a plain Actuator on fresh objects"""
-    res, _, _, err = run_manager(dict(conf_of(case), threads=1, direct=True, strategies=[{"sid": "solo", "behaviour": behaviour, "arg": arg}]))
-    return {"manager": res["solo"], "direct": res["solo_direct"], "post": res.get("solo__post"), "err": err}
+    res, mgr, _, err = run_manager(dict(conf_of(case), threads=1, direct=True, strategies=[{"sid": "solo", "behaviour": behaviour, "arg": arg}]))
+    return {"manager": res["solo"], "direct": res["solo_direct"], "post": res.get("solo__post"), "err": err, "mgr": mgr}
 
 
 def run_case(case):
@@ -886,7 +1063,7 @@ def effect(case, behaviour, arg):
         at(names[0], 2)
     elif b == "add_b":
         at("uni_b")
-    elif b in ("aave_s", "aave_sb"):
+    elif b in ("aave_s", "aave_sb", "aave_liq"):
         at("aave")
     elif b in OPT:
         at("deribit")
@@ -900,7 +1077,82 @@ def effect(case, behaviour, arg):
     fill = {"opt_buy": 1, "opt_round": 2, "opt_twice": 2}.get(b, 0) * int(arg or 0) + (2 if b == "watcher" and has_nested else 0)
     user = (4 * hours if b == "mut_nested" else 2 if b == "mut_status" else 0) if has_nested else 0
     vals = 1 if b in ("vandal", "mut_data") else 0
-    return pos + [1 if b == "indicator" else 0, vals, user, fill, 1 if b == "mut_prices" else 0]
+    return pos + [1 if b == "indicator" else 0, vals, user, fill, 1 if b in ("mut_prices", "aave_liq") else 0]
+
+
+def judge_process(ctx, case, path, mgr, ordered):
+    """the hypothesis `GIntact` of C19_manager_isolated, evaluated on the implementation's own observations: every backtest finds the
+    process-wide state (decimal context; class-level attributes of Snapshot: identity, keys, content) as a fresh process has it after
+    `import demeter`, and leaves it as it found it — in the caller's process and in every pool worker.  None of the generated strategies
+    writes that state, so whatever changes it is the code under test.  Returns (ok, observed assignment of tasks to workers or None,
+    per strategy: did its backtest leave the process changed, per strategy: did it find the process changed)."""
+    log, proc0 = mgr.get("proc_log") or {}, mgr.get("proc0") or {}
+    where = {}
+    for pid, recs in log.items():
+        for k, rec in enumerate(recs or []):
+            where[rec.get("sid")] = (pid, k, rec)
+
+    def parts(a, b):
+        return [k for k in ("dctx", "snapshot_class") if (a or {}).get(k) != (b or {}).get(k)]
+
+    def show(a, b, k):
+        x, y = json.dumps((a or {}).get(k)), json.dumps((b or {}).get(k))
+        return f"{k} {x[:160]} -> {y[:160]}"
+    ok, wrote, found_changed = True, [], []
+    beh = {x["sid"]: x["behaviour"] for x in ordered}
+    for s in ordered:
+        if s["sid"] not in where:
+            wrote.append(0)
+            found_changed.append(None)
+            continue
+        pid, k, rec = where[s["sid"]]
+        left = parts(rec["before"], rec.get("after"))
+        wrote.append(1 if left else 0)
+        found_changed.append(bool(parts(proc0, rec["before"])))
+        if left and ok:
+            ctx.violate(f"manager.{path}.process-state-left:{'+'.join(left)}",
+                        f"markets {'+'.join(case['markets'])}, threads={case['threads']}: the backtest of strategy '{s['behaviour']}' (none of the generated strategies "
+                        f"writes process-wide state) left the process it ran in changed — {'; '.join(show(rec['before'], rec.get('after'), c) for c in left)}; "
+                        f"backtests run later in that process: {[beh.get(r.get('sid')) for r in (log[pid] or [])[k + 1:]]}", case)
+            ok = False
+    for s, fc in zip(ordered, found_changed):
+        if fc and ok:
+            pid, k, rec = where[s["sid"]]
+            ctx.violate(f"manager.{path}.process-state-found:{'+'.join(parts(proc0, rec['before']))}",
+                        f"markets {'+'.join(case['markets'])}, threads={case['threads']}: strategy '{s['behaviour']}' started in a process whose state is not the one after "
+                        f"`import demeter` although no backtest before it left it changed — {'; '.join(show(proc0, rec['before'], c) for c in parts(proc0, rec['before']))}", case)
+            ok = False
+    if ok and parts(proc0, mgr.get("proc_after")):
+        ctx.violate(f"manager.{path}.process-state-left-in-caller:{'+'.join(parts(proc0, mgr.get('proc_after')))}",
+                    f"threads={case['threads']}: run() left the caller's process changed — "
+                    f"{'; '.join(show(proc0, mgr.get('proc_after'), c) for c in parts(proc0, mgr.get('proc_after')))}", case)
+        ok = False
+    # which process executed which task, in which order (the scheduling the model is parametrised by: observed, not assumed)
+    assign = None
+    if all(s["sid"] in where for s in ordered):
+        pids = []
+        for s in ordered:
+            if where[s["sid"]][0] not in pids:
+                pids.append(where[s["sid"]][0])
+        assign = [pids.index(where[s["sid"]][0]) for s in ordered]
+        in_order = all([where[s["sid"]][1] for s in ordered if where[s["sid"]][0] == p] == sorted(where[s["sid"]][1] for s in ordered if where[s["sid"]][0] == p)
+                       for p in pids)
+        in_caller = [p == str(mgr.get("pid")) for p in pids]
+        inproc = path in ("sequential", "solo")
+        if inproc and in_caller != [True]:
+            ctx.disagree(f"in-process path (threads={case['threads']}, {len(ordered)} strategies): backtests were executed by processes {pids}, the caller is {mgr.get('pid')}", case)
+        elif not inproc and any(in_caller):
+            ctx.disagree(f"pooled path (threads={case['threads']}): a backtest was executed by the caller's own process {mgr.get('pid')}", case)
+        if not inproc:
+            ctx.case(f"workers:{path}:t{case['threads']}:n{len(ordered)}:used{len(pids)}:maxload{max(assign.count(i) for i in range(len(pids)))}")
+            if len(pids) > case["threads"]:
+                ctx.disagree(f"pooled path: {len(pids)} worker processes executed tasks, threads={case['threads']}", case)
+        if not in_order:
+            ctx.count("worker_ran_tasks_out_of_submission_order")
+            assign = None
+    else:
+        ctx.count("backtests_without_process_log", len([s for s in ordered if s["sid"] not in where]))
+    return ok, assign, wrote, found_changed
 
 
 def judge_case(ctx, case, outcome, solo_cache, model_reqs):
@@ -922,6 +1174,10 @@ def judge_case(ctx, case, outcome, solo_cache, model_reqs):
         ctx.violate(f"manager.{path}.config-modified", f"the configured market objects were used by a backtest: positions {mgr['config_positions_after']}, "
                     f"attached to a broker {mgr['config_attached']}", case)
         ok = False
+    assign, wrote, found_changed = None, [0] * len(ordered), [None] * len(ordered)
+    if rc == 0 and mgr is not None:
+        pok, assign, wrote, found_changed = judge_process(ctx, case, path, mgr, ordered)
+        ok = ok and pok
     for s in strategies:
         solo = solo_cache[solo_key(case, s["behaviour"], s["arg"])]
         if s["behaviour"] == "raiser":
@@ -965,11 +1221,19 @@ def judge_case(ctx, case, outcome, solo_cache, model_reqs):
             f = r["found"]
             p = (f["pos"] + [0])[:2]
             found.append([p[0] > 0, p[1] > 0, bool(f["link"]), f["cols"] > 0, f["vals"] > 0, f["cells"], f["prices"] > 0])
-        observed = {"results": [r is not None for r in found], "found": found, "reraised": bool(mgr.get("raised"))}
-        model_reqs.append(({"fn": "manager", "threads": case["threads"], "attach": "current", "cow": COW, "windows": bool(case.get("windows")),
-                            "priceDec": case["price_kind"] == "decimal", "linked": "squeeth" in case["markets"],
-                            "effects": [effect(case, s["behaviour"], s["arg"]) for s in ordered],
-                            "fails": [s["behaviour"] == "raiser" for s in ordered]}, observed, case))
+        observed = {"results": [r is not None for r in found], "found": found, "reraised": bool(mgr.get("raised")),
+                    "foundG": [None if r is None else fc for r, fc in zip(found, found_changed)]}
+        req = {"fn": "manager", "threads": case["threads"], "attach": "current", "cow": COW, "windows": bool(case.get("windows")),
+               "priceDec": case["price_kind"] == "decimal", "linked": "squeeth" in case["markets"],
+               "effects": [effect(case, s["behaviour"], s["arg"]) for s in ordered],
+               "fails": [s["behaviour"] == "raiser" for s in ordered],
+               # process-wide state (`managerRunG`): which backtests were measured to leave their process changed (none, unless the code
+               # under test does), and the assignment of tasks to worker processes as observed (pid per backtest), not an assumed one
+               "gwrites": wrote}
+        if assign is not None and path != "sequential":
+            req["assign"] = assign
+            ctx.count("observed_assignments")
+        model_reqs.append((req, observed, case))
 
 
 def judge_solo(ctx, key, solo):
@@ -985,6 +1249,9 @@ def judge_solo(ctx, key, solo):
     elif d is not None:
         ctx.violate("manager.solo-differs-from-actuator",
                     f"markets {'+'.join(conf['markets'])}: strategy '{behaviour}' run alone by BacktestManager differs from the same backtest run by a plain Actuator — {d}", case)
+    if solo.get("mgr"):
+        pok = judge_process(ctx, case, "solo", solo["mgr"], [{"sid": "solo", "behaviour": behaviour, "arg": arg}])[0]
+        d = d if pok else (d or "process state")
     ctx.case(f"solo:{'+'.join(conf['markets'])}:{conf['price_kind']}:{behaviour}:{'ok' if d is None else 'bad'}", case)
 
 
@@ -1063,6 +1330,14 @@ def gen_cases(ctx):
     # a strategy that writes into the tables its market objects carry (Aave risk parameters), followed by strategies that borrow under them
     fixed(["uni_a", "aave"], 1, ["mut_market", "aave_sb", "idle"])
     fixed(["uni_a", "aave"], 2, ["aave_sb", "mut_market", "aave_sb"])
+    # process-wide state: strategies whose numbers depend on the decimal context and on what the Snapshot class holds, run after strategies that
+    # drive the code through its rarer paths (an Aave liquidation, refused calls, a failing backtest), in the caller's process and on reused workers
+    fixed(["uni_a", "aave"], 1, ["aave_liq", "proc_reader", "aave_sb"])
+    fixed(["uni_a", "aave"], 2, ["aave_liq", "aave_liq", "proc_reader", "proc_reader", "proc_reader"])
+    fixed(["uni_a"], 1, ["bad_price", "proc_reader", "raiser", "proc_reader"])
+    fixed(["uni_a", "deribit"], 1, ["opt_round", "proc_reader"], args=[0, None])
+    fixed(["gmx"], 2, ["glp_round", "proc_reader", "proc_reader"], windows=True)
+    fixed(["uni_sq", "squeeth"], 1, ["sq_short", "proc_reader"])
     # a strategy that ends its own backtest with an uncaught exception, first / in the middle / last, in-process and pooled
     fixed(["uni_a"], 1, ["raiser", "add1", "buy"])
     fixed(["uni_a"], 1, ["add1", "raiser", "buy"])
@@ -1127,6 +1402,7 @@ def cow_probe(ctx):
 
 def run(ctx):
     cow_probe(ctx)
+    own_frame_probe(ctx)
     from common import driver_json
     from concurrent.futures import ThreadPoolExecutor
     cases = gen_cases(ctx)
@@ -1189,6 +1465,13 @@ def run(ctx):
                 continue
             predicted = [None if r is None else [int(r[0]) > 0, int(r[1]) > 0, bool(r[2]), int(r[3]) > 0, int(r[4]) > 0, str(Fraction(r[5])), int(r[6]) > 0]
                          for r in a["found"]]
+            pred_g = [None if g is None else int(g) > 0 for g in a.get("foundG", [])]
+            if "assign" in req or req["threads"] == 1 or len(req["effects"]) == 1:
+                ctx.count("model_process_state_predictions", len(pred_g))
+                if pred_g != observed["foundG"] and None not in [o for o, r in zip(observed["foundG"], observed["results"]) if r]:
+                    ctx.disagree(f"manager model (process state threaded per process, observed assignment {req.get('assign', 'in-process')}, backtests measured to "
+                                 f"leave their process changed: {req['gwrites']}) predicts [finds the process state changed] = {pred_g}, the implementation's "
+                                 f"backtests: {observed['foundG']} (threads {req['threads']})", case)
             if predicted != observed["found"]:
                 ctx.disagree(f"manager model predicts that the strategies find [positions on market 1, on market 2, market references intact, columns added, values overwritten, depth taken, prices overwritten] = {predicted}, "
                              f"the implementation's strategies found {observed['found']} (threads {req['threads']})", case)
@@ -1200,6 +1483,11 @@ def replay(ctx, case) -> bool:
     if "cow_probe" in case:
         res = measure_cow()
         return all(res.get(k, True) for k in case["cow_probe"])
+    if "own_frame_probe" in case:
+        own_frame_probe(sub)
+        for v in sub.violations:
+            print("  ", v["key"], v["what"])
+        return not sub.violations
     if "args" not in case:
         case = dict(case, args=[None] * len(case["behaviours"]))
     case.setdefault("price_kind", "float")
@@ -1219,3 +1507,5 @@ if __name__ == "__main__":
         worker(sys.argv[2])
     elif len(sys.argv) == 3 and sys.argv[1] == "--edge":
         edge_worker(sys.argv[2])
+    elif len(sys.argv) == 3 and sys.argv[1] == "--ownframe":
+        own_frame_worker(sys.argv[2])
